@@ -2,3 +2,4 @@ import NjectProofs.Slots
 import NjectProofs.Refine
 import NjectProofs.Static
 import NjectProofs.Machine
+import NjectProofs.EditProofs
